@@ -34,6 +34,7 @@ RULE += (' Also: plain callables presenting themselves as the coroutine function
 RULE += (' Also: items / results that merely expose an __await__ attribute (not awaitable); concurrent.futures.Future results.')
 RULE += (' Also: any_iter over objects offering both iteration protocols.')
 RULE += (' Also: generator-based coroutines as awaitables of await_each; non-awaitable elements (TypeError when reached).')
+RULE += (' Also: any_iter over sources that are falsy although they provide items.')
 ASSUMPTIONS = ["direct specification oracle (no stdlib twin exists for these helpers)"]
 EXHAUSTIVE = {"quick": True, "thorough": True}
 MAX_SHARDS = 8
@@ -43,7 +44,7 @@ def cases(tier, seed, shard, nshards):
     idx = 0
     for n in range(0, 7):
         for outer_aw in (False, True, "awaitobj", "future_like"):
-            for cont in ("list", "iterator", "aiter", "dual"):
+            for cont in ("list", "iterator", "aiter", "dual", "falsy_list"):
                 for item_aw in (False, True, "awaitobj", "mixed", "lookalike"):
                     for steps in range(0, n + 2):
                         for susp in (0, 1):
@@ -398,6 +399,14 @@ def run_any_iter(case, stats):
 
     if case["cont"] == "list":
         cont = [cell(i, it) for i, it in enumerate(items)]
+    elif case["cont"] == "falsy_list":
+        # a source that is FALSY although it provides items (its truth value / length reports a current backlog): whether
+        # there is anything to iterate is found out by iterating
+        class Backlog(list):
+            def __bool__(self):
+                return False
+
+        cont = Backlog(cell(i, it) for i, it in enumerate(items))
     elif case["cont"] == "iterator":
         cont = (cell(i, it) for i, it in enumerate(items))
     else:
@@ -418,6 +427,9 @@ def run_any_iter(case, stats):
                 def __iter__(self):
                     CTX.foreign.append("an asynchronously iterable object was iterated through its synchronous protocol")
                     raise RuntimeError("synchronous iteration in an asynchronous context")
+
+                def __len__(self):
+                    return 0  # (the current backlog: falsy, and no statement about what iterating will provide)
 
             cont = Dual(cont)
     if case["outer_aw"]:
@@ -473,7 +485,7 @@ def run_any_iter(case, stats):
             viols.append({"key": "any_iter/await-order", "msg": f"any_iter {case}: item awaitables awaited {awaited}, expected {exp_aw}"})
     # un-awaited coroutines of the list shape are ours to dispose of - and must still be ours: any_iter may
     # neither start nor close an item its consumer never asked for
-    if case["item_aw"] and case["item_aw"] != "lookalike" and case["cont"] == "list":
+    if case["item_aw"] and case["item_aw"] != "lookalike" and case["cont"] in ("list", "falsy_list"):
         import inspect
         spoiled = [i for i, c in enumerate(cont) if i >= case["steps"] and inspect.iscoroutine(c)
                    and inspect.getcoroutinestate(c) != inspect.CORO_CREATED]
